@@ -6,14 +6,14 @@ import glob, json, os, subprocess, sys, tempfile, shutil, concurrent.futures
 V = os.path.dirname(os.path.dirname(os.path.abspath(__file__)))
 env = dict(os.environ, GOFLAGS="-mod=mod", GOPROXY="off", GOSUMDB="off", GOTOOLCHAIN="local")
 def sh(cmd, cwd=None):
-    r = subprocess.run(cmd, shell=True, cwd=cwd, env=env, stdout=subprocess.PIPE, stderr=subprocess.STDOUT, text=True)
+    r = subprocess.run(cmd, shell=True, cwd=cwd, env=env, stdout=subprocess.PIPE, stderr=subprocess.STDOUT, text=True, errors="replace")
     return r.returncode, r.stdout
 def one(d):
     name = os.path.basename(d)
     m = json.load(open(os.path.join(d, "meta.json")))
     rev = m.get("repo_head_when_confirmed", "HEAD")
     wt = tempfile.mkdtemp(prefix="rerun.", dir="/tmp")
-    sh("git -C /repo worktree add -q --detach %s HEAD" % wt)
+    sh("git -C /repo worktree add -q --detach %s %s" % (wt, m.get("pin_rev", "HEAD")))   # pin_rev: the change only breaks the property on that revision of /repo (a later repair neutralises it)
     rc, _ = sh("git apply %s" % os.path.join(d, "patch.diff"), wt)
     if rc != 0:  # cut against an older HEAD of /repo
         sh("git -C /repo worktree remove --force %s" % wt)
